@@ -28,6 +28,9 @@ type ModCheck struct {
 	SA        *SA
 	Env       envs.Environment
 	Panic     string
+	// Sibling is the same modifier applied, at the same instant, to a second Clone() of the contact object the
+	// first application's contact was cloned from: clones are independent, so it is judged like the first
+	Sibling *ModCheck
 }
 
 // ModOracle judges directly applied modifiers.
@@ -117,11 +120,13 @@ func (w *World) genModifierJSON() gen.J {
 func (w *World) ApplyModifierTwice(c *ContactState, mj gen.J, sa *SA) *ModCheck {
 	mb, _ := json.Marshal(mj)
 	mc := &ModCheck{ModJSON: mb, Before: cloneJ(c.Replica), SA: sa}
-	contact, _, err := w.contactFromReplica(c, sa)
+	orig, _, err := w.contactFromReplica(c, sa)
 	if err != nil {
 		w.probe("replica_unreadable")
 		return nil
 	}
+	// hosts that keep contact objects hand out clones of them
+	contact := orig.Clone()
 	mod, err := modifiers.ReadModifier(sa, mb, assets.IgnoreMissing)
 	if err != nil {
 		w.probe("modifier_unreadable")
@@ -154,6 +159,15 @@ func (w *World) ApplyModifierTwice(c *ContactState, mj gen.J, sa *SA) *ModCheck 
 		*w.Seams.Clock = clock
 		mc.Modified2 = modifiers.Apply(w.Eng, env, sa, contact, mod, collect(&mc.Events2))
 		mc.After2 = snap()
+		// a second clone of the same object, same instant
+		sib := &ModCheck{ModJSON: mb, Before: mc.Before, SA: sa, Env: env}
+		*w.Seams.Clock = clock
+		contact = orig.Clone()
+		sib.Contact = contact
+		sib.Modified = modifiers.Apply(w.Eng, env, sa, contact, mod, collect(&sib.Events))
+		sib.After = snap()
+		sib.After2 = sib.After
+		mc.Sibling = sib
 		*w.Seams.Clock = end
 	})
 	return mc
@@ -178,6 +192,12 @@ func (w *World) doUIModify(t *Task) {
 		if mo, ok := or.(ModOracle); ok && !w.stopped {
 			if p := guarded(func() { mo.AfterModifier(w, mc) }); p != "" {
 				w.HarnessErrors = append(w.HarnessErrors, fmt.Sprintf("oracle %s: %s", or.Name(), clip(p, 2000)))
+			}
+			if mc.Sibling != nil && !w.stopped {
+				w.probe("modifier_on_second_clone_judged")
+				if p := guarded(func() { mo.AfterModifier(w, mc.Sibling) }); p != "" {
+					w.HarnessErrors = append(w.HarnessErrors, fmt.Sprintf("oracle %s (second clone): %s", or.Name(), clip(p, 2000)))
+				}
 			}
 		}
 	}
